@@ -42,6 +42,40 @@ pub fn place_constraint_value(c: &mut v1::Constraint, state: &v1::State, target:
     true
 }
 
+/// Adds `n` continuous variables (ids 5000..) with bound [-16, 16], values for them, and a linear function over all of
+/// them (coefficients derived from `seed`) as the objective, a new active constraint or a new removed constraint.
+pub fn add_big_linear(inst: &mut v1::Instance, state: &mut v1::State, n: usize, seed: u64) {
+    let base = 5000u64;
+    let mut terms = vec![];
+    for i in 0..n as u64 {
+        let mut v = v1::DecisionVariable::default();
+        v.id = base + i;
+        v.kind = KIND_CONTINUOUS;
+        v.bound = Some(crate::mk::bound(-16.0, 16.0));
+        inst.decision_variables.push(v);
+        state.entries.insert(base + i, derived_value(seed, i));
+        terms.push((base + i, derived_coeff(seed, i)));
+    }
+    let f = crate::mk::flin(crate::mk::linear(terms, derived_coeff(seed, 100_000)));
+    match seed % 3 {
+        0 => inst.objective = Some(f),
+        k => {
+            let mut c = v1::Constraint::default();
+            c.id = 777_777;
+            c.equality = if seed % 2 == 0 { EQ_ZERO } else { LE_ZERO };
+            c.function = Some(f);
+            if k == 1 {
+                inst.constraints.push(c);
+            } else {
+                let mut rc = v1::RemovedConstraint::default();
+                rc.constraint = Some(c);
+                rc.removed_reason = "big".into();
+                inst.removed_constraints.push(rc);
+            }
+        }
+    }
+}
+
 pub fn describe_inst(inst: &v1::Instance) -> String {
     let mut deps: Vec<_> = inst.decision_variable_dependency.iter().collect();
     deps.sort_by_key(|x| *x.0);
@@ -97,7 +131,7 @@ impl Property for C05 {
          oracle = reference evaluator of the statement over exact rationals; non-trivial = (>=1 active and >=1 removed constraint) or rejection case or state omitting an irrelevant variable; distinct = sha256(instance, state)"
     }
     fn required_labels(&self) -> Vec<String> {
-        ["flag-relaxed!=flag-all", "tolerance-inside", "tolerance-outside", "bound-reject", "bound-tolerated", "missing-used", "irrelevant-filled", "dependency", "fixed-variable", "removed-constraint", "feasible=true", "feasible=false", "state-has-foreign-id", "state-repeats-fixed-variable", "dependency-on-fixed", "big-bound-on", "big-bound-steps-outside"]
+        ["flag-relaxed!=flag-all", "tolerance-inside", "tolerance-outside", "bound-reject", "bound-tolerated", "missing-used", "irrelevant-filled", "dependency", "fixed-variable", "removed-constraint", "feasible=true", "feasible=false", "state-has-foreign-id", "state-repeats-fixed-variable", "dependency-on-fixed", "big-bound-on", "big-bound-steps-outside", "big-linear-function"]
             .iter()
             .map(|s| s.to_string())
             .collect()
@@ -128,6 +162,7 @@ impl Property for C05 {
         let class = t.weighted(&[5, 4, 3, 3, 6]);
         let inc = t.coin();
         let imask = t.u16();
+        let big = if t.p(8) { Some((*t.pick(&SIZES), t.byte() as u64)) } else { None };
         let mut gi = gen_instance(t, &cfg, ctx);
         let include_irrelevant = class != 1 && inc;
         let mut state = if include_irrelevant { gen_inst_state(t, &gi, regime, true) } else { gen_inst_state_partial(t, &gi, regime, imask) };
@@ -144,6 +179,11 @@ impl Property for C05 {
                 state.entries.insert(*fx, crate::model::nearest_to_zero(lo, hi));
                 ctx.label("state-repeats-fixed-variable");
             }
+        }
+        if let Some((n, seed)) = big {
+            // a linear function over many more variables than usual (a knapsack row): sizes around the powers of two
+            add_big_linear(&mut gi.inst, &mut state, n, seed);
+            ctx.label("big-linear-function");
         }
         if gi.irrelevant.iter().any(|i| !state.entries.contains_key(i)) {
             ctx.label("irrelevant-filled");
